@@ -1,6 +1,6 @@
 (* C05 property theorems (model: C05/Dec.v over the shared ABI spec C06/Abi.v). *)
 From Coq Require Import ZArith List Bool Lia.
-From Verif Require Import C06.Abi C06.Roundtrip C05.Dec C05.DecProofs C05.ReadsInside.
+From Verif Require Import C06.Abi C06.Roundtrip C06.ZeroPad C05.Dec C05.DecProofs C05.ReadsInside C05.DecImpl C05.DecImplProofs.
 Import ListNotations.
 Open Scope Z_scope.
 
@@ -57,6 +57,45 @@ Proof.
 Qed.
 Print Assumptions dec_reads_inside.
 
+(* ---- implementation-level decoders (DecImpl.v): absolute wrapping addresses, the payload at ANY address M,
+   ARBITRARY stale memory around it, each implementation's checks in its own order, out-of-gas past 2^32.
+   Hypotheses: the payload fits below MEMLIM, stale bytes are bytes, bounds < 2^64 (vyper asserts this). ---- *)
+Definition impl_hyps (M : Z) (stale : mem) (t : ty) (payload : list Z) : Prop :=
+  0 <= M /\ M + zlen payload + 32 <= MEMLIM /\ bytes_ok payload /\ (forall a, 0 <= stale a < 256) /\
+  wf_ty t = true /\ small_ty t = true /\ scalar_like t = false.
+
+Theorem dec_sound_l : forall M stale t payload v, impl_hyps M stale t payload ->
+  ldec M stale t payload = Some v -> in_type t v = true /\ dec_at t payload 0 = Some v /\ accept_mem t payload = Some v.
+Proof.
+  intros M stale t p v (H1 & H2 & H3 & H4 & H5 & H6 & H7) Hd. unfold ldec in Hd.
+  rewrite (impl_refines_model Legacy M stale t p H1 H2 H3 H4 H5 H6 H7) in Hd.
+  destruct (dec_reads_inside t p [] v H5 H3 H7 Hd) as (_ & Hv & Hi). rewrite app_nil_r in Hv. auto.
+Qed.
+Theorem dec_sound_v : forall M stale t payload v, impl_hyps M stale t payload ->
+  vdec M stale t payload = Some v -> in_type t v = true /\ dec_at t payload 0 = Some v /\ accept_mem t payload = Some v.
+Proof.
+  intros M stale t p v (H1 & H2 & H3 & H4 & H5 & H6 & H7) Hd. unfold vdec in Hd.
+  rewrite (impl_refines_model Venom M stale t p H1 H2 H3 H4 H5 H6 H7) in Hd.
+  destruct (dec_reads_inside t p [] v H5 H3 H7 Hd) as (_ & Hv & Hi). rewrite app_nil_r in Hv. auto.
+Qed.
+Print Assumptions dec_sound_l.
+Print Assumptions dec_sound_v.
+
+(* acceptance and the decoded value depend neither on the stale memory around the payload nor on where the
+   payload sits, and the two implementations accept exactly the same payloads with the same values *)
+Theorem dec_reads_inside_lv : forall M M' stale stale' t payload,
+  impl_hyps M stale t payload -> impl_hyps M' stale' t payload ->
+  ldec M stale t payload = ldec M' stale' t payload /\
+  vdec M stale t payload = vdec M' stale' t payload /\
+  ldec M stale t payload = vdec M stale t payload.
+Proof.
+  intros M M' stale stale' t p (H1 & H2 & H3 & H4 & H5 & H6 & H7) (H1' & H2' & _ & H4' & _).
+  unfold ldec, vdec.
+  rewrite (impl_refines_model Legacy M stale t p), (impl_refines_model Legacy M' stale' t p),
+          (impl_refines_model Venom M stale t p), (impl_refines_model Venom M' stale' t p); auto.
+Qed.
+Print Assumptions dec_reads_inside_lv.
+
 (* non-vacuity *)
 Definition TA := TTuple [TDArr (TBytes 3) 2; TInt 8].
 Definition VA := VList [VList [VBytes [1;2;3]; VBytes []]; VInt (-128)].
@@ -71,5 +110,9 @@ Example c05_nonvacuous :
      the zero-extended follow decoder would accept it as an empty byte string *)
   accept_mem (TTuple [TBytes 3]) (word 32 ++ word 1 ++ [9] ++ zeros 31) = Some (VList [VBytes [9]]) /\
   accept_mem (TTuple [TBytes 3]) (word 96 ++ word 1 ++ [9] ++ zeros 31) = None /\
-  accept_payload (TTuple [TBytes 3]) (word 96 ++ word 1 ++ [9] ++ zeros 31) = Some (VList [VBytes []]).
+  accept_payload (TTuple [TBytes 3]) (word 96 ++ word 1 ++ [9] ++ zeros 31) = Some (VList [VBytes []]) /\
+  (* implementation level: an offset 2^256-4096 that wraps back to the payload start is rejected, dirty stale memory *)
+  ldec 4096 (fun _ => 255) (TTuple [TBytes 3]) (word 32 ++ word 1 ++ [9] ++ zeros 31) = Some (VList [VBytes [9]]) /\
+  vdec 4096 (fun _ => 255) (TTuple [TBytes 3]) (word (2 ^ 256 - 4096 + 32) ++ word 1 ++ [9] ++ zeros 31) = None /\
+  small_ty TA = true.
 Proof. vm_compute. repeat split; reflexivity. Qed.
